@@ -18,6 +18,9 @@ class FutureModel:
     def done(self):
         return self.state != 0
 
+    def cancelled(self):
+        return self.state == 1
+
     def set_result(self, value):
         if self.state != 0:
             raise InvalidStateError()
